@@ -14,6 +14,7 @@ EXPLANATION = (
     "copyto/put, op= on an array parameter) on a value handed in along the trigger path (T2-own); who-may-call for Consequent.modify; "
     "Consequent.load replaces the list of conclusions (O9) and, interpreted abstractly, is the consequent grammar automaton (LD)"
     "; Consequent.modify is interpreted on 120 model consequents with a symbolic activation degree, uninterpreted hedges and numpy, and the real Activated constructor and degree setter: one activated term per conclusion on an enabled variable, carrying the concluded term, the implication handed in and the degree S[H(d)] of its own hedges (M-sem); the independence of conclusions is the known finding L1, found by the same interpretation"
+    "; the implication handed to the rules is the block's own under every activation method (P2); Consequent.modify leaves the rule's conclusions as they were"
 )
 ASSUMPTIONS = ["numpy.nan_to_num keyword semantics"]
 FLOORS = {"L1": 1, "M-sem": 4, "P4": 3, "T2": 4, "T2-own": 1, "O9": 2, "LD": 4}
